@@ -68,6 +68,13 @@ theorem expand_default_template (jf date : String) :
       some ((jf.toList.take (jf.length - 3)) ++ ".jugdata".toList) := by
   simp [expandChars, lookupVar, List.takeWhile, List.dropWhile]
 
+/-- all commands of one project address the same store: the location is a function of the resolved template, the jugfile name,
+    the date and what the jugfile itself selects - and `jugdir`/`jugfile` resolve identically for every subcommand
+    (`common_options_uniform`); a jugfile that selects its store wins in every command, otherwise it is the expanded template -/
+theorem store_location (ov : Option String) (t jf date e : String) (h : expandJugdir t jf date = some e) :
+    storeFor ov t jf date = some (ov.getD e) ∧ storeFor none t jf date = some e ∧ (∀ s, storeFor (some s) t jf date = some s) := by
+  simp [storeFor, h]
+
 /-- non-vacuity: the generated table is not empty and contains the options the property is about -/
 example : (optionTable.filter (·.dest = "execute_keep_going")).length = 1 ∧ 100 < optionTable.length := by decide +kernel
 
